@@ -16,8 +16,10 @@ Proof. exact at_most_one_registration. Qed.
 Print Assumptions C20_at_most_one_registration.
 
 (** Clause 1 with faults: register-then-save cannot do better than one extra account per lost
-    save; every registration beyond the first is accounted for by a failed Store of the save, a
-    crash inside the register..save window, or a Delete of the recreate path. *)
+    save; every registration beyond the first is accounted for by a failed Store of the save
+    (or a save that never started because the response of newAccount was lost — the
+    correspondence presents that as "registered, first Store failed"), a crash inside the
+    register..save window, or a Delete of the recreate path. *)
 Theorem C20_registrations_bounded_by_failed_saves : forall s c,
   reachable s -> created s c <= 1 + fsaves s c + crashes s c + deletes s c.
 Proof. exact registrations_bounded. Qed.
